@@ -13,6 +13,9 @@ Operators (AST-located, applied at one site each):
   ret-hoist      return E -> _sa_rv = E; return _sa_rv
   pass-insert    a `pass` statement in front of a statement
   paren-wrap     x = E -> x = (E)
+  aug-expand     x += E -> x = x + (E)   (plain-name or self.attr targets, + - * only)
+  and-nest       if A and B: S (no else) -> if A: if B: S
+  unpack-split   a, b = X, Y -> a = X; b = Y   (when Y does not read a and X/Y are call-free)
 
     /venv/bin/python -m sa.selftest.benignmut C02 [--max 200] [--jobs 16] [--list]
 """
@@ -100,6 +103,33 @@ def gen_benign(fn: FuncInfo) -> List[Edit]:
             add(n, "_sa_rv = %s\n%sreturn _sa_rv" % (seg(n.value), ind), "ret-hoist")
         if isinstance(n, ast.Assign) and one_line(n) and len(n.targets) == 1 and not isinstance(n.value, (ast.Tuple, ast.Yield, ast.YieldFrom)):
             add(n.value, "(%s)" % seg(n.value), "paren-wrap")
+        if isinstance(n, ast.AugAssign) and one_line(n) and isinstance(n.op, (ast.Add, ast.Sub, ast.Mult)) \
+                and (isinstance(n.target, ast.Name) or (isinstance(n.target, ast.Attribute)
+                                                        and isinstance(n.target.value, ast.Name))):
+            opch = {ast.Add: "+", ast.Sub: "-", ast.Mult: "*"}[type(n.op)]
+            add(n, "%s = %s %s (%s)" % (seg(n.target), seg(n.target), opch, seg(n.value)), "aug-expand")
+        if isinstance(n, ast.If) and not n.orelse and isinstance(n.test, ast.BoolOp) and isinstance(n.test.op, ast.And) \
+                and len(n.test.values) == 2 and n.body and n.body[0].lineno > n.lineno \
+                and not m.lines[n.lineno - 1][n.col_offset:].startswith("elif"):
+            ind = indent_of(n)
+            body_first, body_last = n.body[0], n.body[-1]
+            bind = indent_of(body_first)
+            extra = bind[len(ind):] if bind.startswith(ind) and len(bind) > len(ind) else "    "
+            body_lines = m.lines[body_first.lineno - 1: body_last.end_lineno]
+            new_body = "\n".join((extra + ln) if ln.strip() else ln for ln in body_lines)
+            s0 = offs[n.lineno - 1] + n.col_offset
+            e0 = offs[body_last.end_lineno - 1] + len(m.lines[body_last.end_lineno - 1].encode("utf-8"))
+            old_txt = srcb[s0:e0].decode("utf-8")
+            new_txt = "if %s:\n%sif %s:\n%s" % (seg(n.test.values[0]), bind, seg(n.test.values[1]), new_body)
+            out.append(Edit(rel, s0, e0, new_txt, "and-nest", q, n.lineno, old_txt))
+        if isinstance(n, ast.Assign) and one_line(n) and len(n.targets) == 1 and isinstance(n.targets[0], ast.Tuple) \
+                and isinstance(n.value, ast.Tuple) and len(n.targets[0].elts) == 2 and len(n.value.elts) == 2 \
+                and all(isinstance(t, ast.Name) for t in n.targets[0].elts) \
+                and _callfree(n.value) \
+                and n.targets[0].elts[0].id not in {x.id for x in ast.walk(n.value.elts[1]) if isinstance(x, ast.Name)}:
+            ind = indent_of(n)
+            a, b = n.targets[0].elts
+            add(n, "%s = %s\n%s%s = %s" % (a.id, seg(n.value.elts[0]), ind, b.id, seg(n.value.elts[1])), "unpack-split")
         if isinstance(n, (ast.Assign, ast.Expr, ast.Return, ast.AugAssign)) and one_line(n) \
                 and not (isinstance(n, ast.Expr) and isinstance(n.value, ast.Constant)):
             ind = indent_of(n)
@@ -161,7 +191,7 @@ def gen_benign(fn: FuncInfo) -> List[Edit]:
     return out
 
 
-def sweep(prop: str, max_edits: int = 200, jobs: int = 16, seed: int = 0) -> Dict:
+def sweep(prop: str, max_edits: int = 200, jobs: int = 16, seed: int = 0, ops=None) -> Dict:
     import multiprocessing as mp
     import random
     fns = automut.anchors_of(prop)
@@ -172,6 +202,8 @@ def sweep(prop: str, max_edits: int = 200, jobs: int = 16, seed: int = 0) -> Dic
                 edits.extend(gen_benign(f))
             except Exception:
                 continue
+    if ops:
+        edits = [e for e in edits if e.op in ops]
     total = len(edits)
     if total > max_edits:
         edits = random.Random(seed).sample(edits, max_edits)
@@ -200,8 +232,9 @@ def main():
     ap.add_argument("--max", type=int, default=200)
     ap.add_argument("--jobs", type=int, default=int(os.environ.get("SA_JOBS", "16")))
     ap.add_argument("--list", action="store_true")
+    ap.add_argument("--ops", default="", help="comma-separated operator names (default: all)")
     a = ap.parse_args()
-    r = sweep(a.prop, a.max, a.jobs)
+    r = sweep(a.prop, a.max, a.jobs, ops=set(a.ops.split(",")) if a.ops else None)
     fa, ae = r.pop("false_alarms"), r.pop("analysis_errors")
     print(json.dumps(r))
     if a.list:
